@@ -6,6 +6,7 @@ import z3
 import common
 import e2
 import srcsym
+import convkern
 from e2 import conj, disj, opq, calls, result_kind
 from mirsym import Exec, State, Opq, Agg, Ref, StrC, Seq, Val, Unsupported
 
@@ -241,6 +242,96 @@ def ob_tail_distribution(run, mir, rp):
             e2.prove_each(run, ob, ex, [], claims, {}, rp_ret)
         except Unsupported as e:
             ob.inconclusive(f"unsupported: {e}")
+
+
+def structure_family(rp, only=None):
+    bad, n = [], 0
+    for kind, progs in convkern.STRUCT_PROGRAMS.items():
+        if only and kind not in only:
+            continue
+        for i, (src, want) in enumerate(progs):
+            n += 1
+            st, out = rp.transpile(src)
+            if st != "OK":
+                bad.append({"role": f"{kind}#{i}", "src": src, "why": f"{st}: {out[:160]}"})
+                continue
+            rc, so, se = py_run(out)
+            if rc != 0 or so.strip() != want:
+                bad.append({"role": f"{kind}#{i}", "src": src, "why": f"emitted {out.strip()[:300]!r} prints {so.strip()!r} (rc={rc} {se[-120:]}), "
+                            f"documented meaning gives {want!r}"})
+    return n, bad
+
+
+# node kinds whose replay programs exercise an arm that only dispatches / is reached through other kinds
+RELATED = {"Handle": ["HandleId", "Raise"], "ExpressionType": ["Match", "Handle"], "Underscore": ["Match"], "Break": ["For", "While"], "Continue": ["For", "While"],
+           "VariableDef": ["Block", "Reassign"], "FunDef": ["FunctionCall", "Block"], "FunArg": ["FunctionCall"],
+           "Class": ["PropertyCall"], "Parent": ["Raise"], "TypeDef": [], "TypeAlias": [], "Range": [], "Slice": [],
+           "DocStr": [], "With": [], "IsNA": [], "Pass": ["Pass"]}
+
+
+def ob_structure(run, mir, rp):
+    """Every arm of the typed-AST -> Core converters builds the documented Core shape from the conversions of its children."""
+    groups = {}
+    for sp in convkern.specs():
+        groups.setdefault(sp["fn"], []).append(sp)
+    for fnname, sps in groups.items():
+        ob = run.ob(f"structure-{fnname.replace('_', '-')}", "E2",
+                    f"{fnname}: for every node kind it handles, the Core value it returns has the documented shape - each slot holds "
+                    "the conversion of the child of the same role (term equality), converted with the generator flags the role "
+                    "requires; loops append one well-formed element per case; it fails only when a recursive conversion failed; "
+                    "pending return / assignment post-processing follows the two flags", [fnname, "State setters (inlined)"])
+        try:
+            hyps_claims, notes_by_kind, npaths = [], {}, 0
+            ex0 = None
+            for sp in sps:
+                arm, oks, pairs, notes = convkern.check_arm(run, mir, sp)
+                if not oks:
+                    raise Unsupported(f"{fnname}:{sp['kind']}: no Ok path")
+                if sp.get("loop"):
+                    n, lp, nts = convkern.check_loop(arm, sp)
+                    if not n:
+                        raise Unsupported(f"{fnname}:{sp['kind']}: no loop iteration appends an element")
+                    pairs = pairs + lp
+                    notes = notes + nts
+                pairs = pairs + convkern.err_pairs(arm, sp)
+                npaths += len(arm.ends)
+                if notes:
+                    notes_by_kind[sp["kind"]] = notes[:3]
+                hyps_claims.append((sp["kind"], arm, pairs))
+            bad_kinds, reach_ok = [], True
+            for kind, arm, pairs in hyps_claims:
+                for hyp, cl in pairs:
+                    r0, _m, dt0, _ = e2.solve(arm.ex, [hyp])
+                    r, m, dt, _s = e2.solve(arm.ex, [hyp, z3.Not(cl)])
+                    ob.solver_s += dt0 + dt
+                    ob.queries += 2
+                    if r0 != z3.sat:
+                        continue        # infeasible path (pruning is lazy)
+                    if r == z3.unsat:
+                        continue
+                    if r != z3.sat:
+                        raise Unsupported(f"solver answered {r} for {kind}")
+                    if kind not in bad_kinds:
+                        bad_kinds.append(kind)
+            ob.reach = "sat"
+            run.samples.append({"obligation": ob.id, "kinds": [sp["kind"] for sp in sps], "paths": npaths, "flagged": bad_kinds,
+                                "notes": notes_by_kind})
+            if not bad_kinds:
+                ob.discharged(f"unsat for {len(sps)} node kinds ({npaths} paths)")
+                continue
+            only = set()
+            for k in bad_kinds:
+                only.add(k)
+                only.update(RELATED.get(k, []))
+            n, bad = structure_family(rp, only=only)
+            if bad:
+                ob.violated(f"structure:{bad[0]['role']}", {"node_kinds": bad_kinds, "notes": {k: notes_by_kind.get(k) for k in bad_kinds}},
+                            bad[0], f"{bad[0]['src']!r}: {bad[0]['why']}")
+            else:
+                ob.inconclusive(f"solver reports that {fnname} does not build the documented shape for {bad_kinds} "
+                                f"({ {k: notes_by_kind.get(k) for k in bad_kinds} }) but the {n} replay programs of these kinds behave as documented")
+        except Unsupported as e:
+            ob.inconclusive(str(e))
 
 
 def run(run):
@@ -506,6 +597,8 @@ def run(run):
         obR.inconclusive(str(e))
 
     ob_tail_distribution(run, mir, rp)
+
+    ob_structure(run, mir, rp)
     # grouping is meaning: the printer's parenthesisation decision (the C10 obligations) is part of this property too
     try:
         from props import C10
@@ -517,8 +610,9 @@ def run(run):
         n1, b1 = operator_family(rp)
         n2, b2 = range_family(rp)
         n3, b3 = ret_family(rp)
-        b2 = b2 + b3
-        run.validated += n1 + n2 + n3
+        n4, b4 = structure_family(rp)
+        b2 = b2 + b3 + b4
+        run.validated += n1 + n2 + n3 + n4
         if b1 or b2:
             run.ob("family-operators", "native", "replay programs behave as documented").inconclusive(str((b1 + b2)[:2])[:600])
     rp.close()
